@@ -7,8 +7,13 @@ RULE = ("MC: TLC proves for small wheels (tick 1..3 units, span 2..7 units, 1-3 
         "span, clock gaps up to more than a revolution) that the slot machine of timeout.go returns every outstanding item exactly "
         "once, never before added+min(RoundUp(timeout),span) and is returnable after an Advance at added+RoundUp(min(timeout,span))"
         "+2 ticks. R: one replayed step per edge of those state graphs on a real TimerWheel / LockingTimerWheel under 3 time units; "
-        "distinct = (graph, unit, edge). T: seeded random histories on real wheels of 3-6 geometries validated by TLC against the "
-        "reference layer only")
+        "distinct = (graph, unit, edge). The recycled-item cache (bounded freelist) is modelled with a scaled bound (CacheMax 1-2, "
+        "separate actions for Add from an empty / non-empty cache and Purge into a non-full / full cache) and bound by scaling: in "
+        "the 'cache' graphs one model item is replayed as timerCacheMax/CacheMax real items, so the model's bound is the real "
+        "50000; every Add/Purge edge is also followed by a settling suffix (add, advance past the span, drain). T: seeded random "
+        "histories on real wheels of 3-6 geometries validated by TLC against the reference layer only; every fourth history holds "
+        "a burst of about timerCacheMax unrecorded items that is drained around the recorded items, every fourth has its cache "
+        "topped up to the limit")
 ASSUMPTIONS = [
     "the guarantee is claimed only for items added right after Advance(now) with the same now ('a wheel that was advanced to the "
     "current time'); other adds are exercised but only 'never returned twice' is checked for them",
@@ -17,12 +22,89 @@ ASSUMPTIONS = [
     "on each side: not before min(RoundUp(timeout), span); returnable by RoundUp(min(timeout, span)) + 2 ticks",
     "the order in which Purge returns simultaneously expired items is not part of the property",
     "'returned no later than' is read as: an Advance(now) with now >= the bound makes the item returnable by Purge",
+    "the ~50000 items of a burst in T histories are not written to the trace: for them the harness checks only 'returned exactly "
+    "once after a final Advance past the span' (keys burst:*); the recorded items around the burst are validated by TLC",
 ]
 
 QUICK_GRAPHS = [('1_2', 1, 2), ('2_5', 2, 5)]
 THOROUGH_GRAPHS = QUICK_GRAPHS + [('1_3', 1, 3), ('3_7', 3, 7)]
+# graphs replayed with the item cache bound by scaling: (name, tick, span, CacheMax of the cfg, time units); one model item is
+# replayed as timerCacheMax/CacheMax real items, so that the model's cache bound IS the real one (50000)
+# last field: at most that many edges get a settling suffix (None = every Add/Purge edge)
+QUICK_CACHE_GRAPHS = [('cache', 1, 2, 1, 1, None)]
+THOROUGH_CACHE_GRAPHS = [('cacheb', 1, 2, 1, 2, None), ('cache2', 1, 2, 2, 1, 3000)]
 QUICK_GROUPS = [(1, 10), (3, 10), (5, 23)]
 THOROUGH_GROUPS = QUICK_GROUPS + [(7, 7), (2, 3), (1000, 180000)]
+
+
+def settle_tours(path, tick, span, rnd, limit=None):
+    """Edge cover is not enough where the real object may carry hidden state that the model state does not show (a model state
+    reached over the cache-full path of Purge equals the one reached over the caching path).  For the scaled cache graphs every
+    Add/Purge edge that moves an item is therefore also followed by a settling suffix: add one more item (if the model offers it),
+    let more than span + 2 ticks pass with Advances, purge until nothing is left -- the projection is compared after every step,
+    so anything lost, duplicated or stuck after that edge shows.  Returns the number of tours appended to the graph file."""
+    g = json.load(open(path))
+    edges = g['edges']
+    out = {}
+    for ei, e in enumerate(edges):
+        out.setdefault(e[0], []).append(ei)
+    parent = {s: None for s in g['init']}
+    dq = list(g['init'])
+    while dq:
+        u = dq.pop(0)
+        for ei in out.get(u, []):
+            v = edges[ei][1]
+            if v not in parent:
+                parent[v] = ei
+                dq.append(v)
+
+    def path_to(u):
+        p = []
+        while parent[u] is not None:
+            p.append(parent[u])
+            u = edges[parent[u]][0]
+        return p[::-1]
+
+    def pick(u, acts, best=None):
+        c = [ei for ei in out.get(u, []) if edges[ei][2] in acts]
+        if not c:
+            return None
+        if best:
+            return max(c, key=lambda ei: edges[ei][3][0])
+        return rnd.choice(c)
+    maxgap = max(e[3][0] for e in edges if e[2] == 'Tick')
+    rounds = (span + 3 * tick) // maxgap + 1
+    targets = [ei for ei, e in enumerate(edges) if e[2] in ('AddNew', 'AddRecycled', 'PurgeCache', 'PurgeDrop') and e[0] in parent]
+    rnd.shuffle(targets)
+    if limit:
+        targets = targets[:limit]
+    added = 0
+    for ei in targets:
+        tour = path_to(edges[ei][0]) + [ei]
+        u = edges[ei][1]
+
+        def go(x):
+            nonlocal u
+            if x is not None:
+                tour.append(x)
+                u = edges[x][1]
+            return x is not None
+        if not go(pick(u, ('AddNew', 'AddRecycled'))):
+            if go(pick(u, ('Advance',))):
+                go(pick(u, ('AddNew', 'AddRecycled')))
+        for _ in range(rounds):
+            go(pick(u, ('Tick',), best=True))
+            go(pick(u, ('Advance',)))
+        for _ in range(8):
+            x = pick(u, ('PurgeEmpty', 'PurgeCache', 'PurgeDrop'))
+            go(x)
+            if x is None or edges[x][2] == 'PurgeEmpty':
+                break
+        g['tours'].append(tour)
+        added += 1
+    with open(path, 'w') as f:
+        json.dump(g, f)
+    return added, sum(len(t) for t in g['tours'])
 
 
 def run(ctx):
@@ -31,7 +113,9 @@ def run(ctx):
     plan = {'graphs': [], 'groups': [], 'traces': 24 if ctx.quick else 120, 'events': 120 if ctx.quick else 300,
             'maxItem': 64 if ctx.quick else 160}
     rnd = random.Random(ctx.seed)
-    for name, tick, span in graphs:
+    ntours = {}
+    cgraphs = QUICK_CACHE_GRAPHS if ctx.quick else THOROUGH_CACHE_GRAPHS
+    for name, tick, span, cmax, units, lim in [(n, t, s, 0, 0, None) for n, t, s in graphs] + cgraphs:
         dot = os.path.join(ctx.spec_dir(), 'tw%s.dot' % name)
         ctx.tlc('TimerWheel', 'MC_TimerWheel_%s.cfg' % name, args=['-dump', 'dot,actionlabels', dot], workers=1)  # 1 worker: reproducible edge order
         out = 'c33_graph_%s.json' % name
@@ -39,8 +123,12 @@ def run(ctx):
         os.remove(dot)
         if st['edges_covered'] != st['edges']:
             raise MachineryError('edge cover incomplete for %s: %s' % (name, st))
+        if cmax:
+            st['settle_tours'], st['steps'] = settle_tours(os.path.join(ctx.scratch, out), tick, span, rnd, lim)
+            st['tours'] += st['settle_tours']
         ctx.extra.setdefault('graphs', {})[name] = st
-        plan['graphs'].append({'file': out, 'tick': tick, 'span': span})
+        plan['graphs'].append({'file': out, 'name': name if cmax else '', 'tick': tick, 'span': span, 'cacheMax': cmax, 'units': units})
+        ntours[name] = st['tours'] * (units or 3)
     if not ctx.quick:
         ctx.tlc('TimerWheel', 'MC_TimerWheel_2_5x2.cfg', timeout=1500)
         ctx.tlc('TimerWheel', 'MC_TimerWheel_1_3x3.cfg', timeout=1500)
@@ -50,7 +138,7 @@ def run(ctx):
         json.dump(plan, f)
     res = ctx.gotest('.', 'TestVerif_C33')
     ctx.take_mismatches(res)
-    ctx.traces += 3 * sum(st['tours'] for st in ctx.extra['graphs'].values())
+    ctx.traces += sum(ntours.values())
     base = open(os.path.join(ctx.spec_dir(), 'Trace_TimerWheel.cfg')).read()
     for g in plan['groups']:
         cfg = base.replace('TickD = 1', 'TickD = %d' % g['tick']).replace('Span = 10', 'Span = %d' % g['span']) \
@@ -62,15 +150,21 @@ def run(ctx):
             kind = ln.get('ev')
             if kind == 'Purge':
                 kind = 'Purge-early-or-twice' if ln.get('has') else 'Purge-empty-while-overdue'
-            ctx.violation('trace:%s:%d_%d' % (kind, g['tick'], g['span']),
+            # the class of the history: what the harness noted before the rejected call (burst beyond the cache, purge with full cache)
+            notes = [x.get('what') for x in (fl.get('trace') or fl.get('full') or []) if x.get('ev') == 'Note']
+            cls = ''.join(':after-' + n for n in ('burst', 'purge-with-full-cache') if n in notes)
+            ctx.violation('trace:%s:%d_%d%s' % (kind, g['tick'], g['span'], cls),
                           'recorded call %s is not permitted by the reference of TimerWheel.tla (tick %d, span %d units)' %
                           (json.dumps(ln), g['tick'], g['span']), fl)
-    ctx.require_actions('Tick', 'Advance', 'Add', 'Purge', 'T:Advance', 'T:Add', 'T:Purge', 'T:revolution', 'T:cache-limit')
+    ctx.require_actions('Tick', 'Advance', 'AddNew', 'AddRecycled', 'PurgeEmpty', 'PurgeCache', 'PurgeDrop',
+                        'R:add-new-batch', 'R:add-recycled-batch', 'R:purge-cache-full', 'R:purge-cache-full-last',
+                        'T:Advance', 'T:Add', 'T:Purge', 'T:revolution', 'T:cache-limit', 'T:burst', 'T:purge-cache-full',
+                        'T:purge-cache-full-last')
 
 
 META = {
     'category': 'model_checking',
-    'technique': 'TLA+ spec TimerWheel.tla: TLC exhaustive check that the slot machine (current/lastTick/slots/expired/item cache) '
+    'technique': 'TLA+ spec TimerWheel.tla: TLC exhaustive check that the slot machine (current/lastTick/slots/expired/bounded item cache) '
                  'refines the once-and-on-time reference; every state-graph edge replayed on real TimerWheel and LockingTimerWheel '
                  'with explicit now; recorded random histories validated by TLC against the reference layer',
     'text': 'TLC enumerates every add/advance/purge history of small wheels (incl. advances of more than a revolution, timeouts below '
